@@ -26,6 +26,8 @@ def run(ctx, rep):
                       "instantiate_custom_exceptions, otherwise builtins only, else a generic stand-in named after the original")
     rep.rule("R09.5", "no constructor, only vetted exception classes (= R07.5)")
     rep.rule("R09.6", "the rebuilt class is a subclass of the original carrying its name/module; args and attributes are restored")
+    rep.rule("R09.8", "an exception of any class raised while serving (incl. SystemExit/KeyboardInterrupt not routed locally) is sent "
+                      "back: the replying handler clause catches everything (= R08.1)")
     rep.rule("R09.7", "the StopIteration fast path is paired on both sides")
     rep.assume("per-class fidelity of the ~70 built-in exception classes is not decided (class lookup is by name on the builtins module)")
     defaults = ctx.const(K.PROTO, "DEFAULT_CONFIG")
@@ -239,6 +241,15 @@ def run(ctx, rep):
             rep.ob("R09.4", "vinegar.load: with custom exceptions off only the builtins module is consulted, and only for its own name",
                    okb, "getattr(exceptions_module, clsname) under `modname == exceptions_module.__name__`" if okb else
                    "the default class lookup `%s` is not restricted to the builtins module named by the payload" % src, ctx.loc(n))
+    for n in lookups:
+        for cc in A.calls(n.ast.value):
+            if A.call_name(cc) == "getattr" and len(cc.args) >= 2 and not isinstance(cc.args[1], ast.Constant):
+                tot = len(cc.args) == 3
+                rep.ob("R09.4", "vinegar.load: `%s` cannot fail for an unknown name" % A.norm(cc)[:50], tot,
+                       "getattr with a default" if tot else
+                       "the class lookup has no default: a record naming a class that is not an attribute of the loaded module "
+                       "(nested/dynamic classes, version skew) raises AttributeError out of _dispatch - the response is never "
+                       "delivered to its request", ctx.loc(cc))
     gen = [c for c in A.find_calls(fl.node, "type") if len(c.args) == 3]
     okn = False
     mc = None
@@ -339,3 +350,6 @@ def run(ctx, rep):
     rep.ob("R09.7", "vinegar.load: the fast-path constant maps back to StopIteration", okl,
            "`if val == EXC_STOP_ITERATION: return StopIteration`" if okl else "the constant is not mapped back to StopIteration",
            fl.loc)
+
+    K.share(ctx, rep, "c08", lambda o: o.rule == "R08.1" and (o.key.startswith("_dispatch_request: failure of") or
+                                                              "configured local propagation" in o.key), "R09.8", floor=4)
